@@ -291,7 +291,7 @@ func IsExit(in ssa.Instruction) bool {
 // BlockReachableWithoutEdge: can block target be reached from block from when
 // the edge (eb, es) is removed? Used for "executes only if the edge was taken".
 func ReachableWithoutEdge(from Pt, target ssa.Instruction, eb *ssa.BasicBlock, es int) bool {
-	res := Reach([]Pt{from}, Opts{EdgeOK: func(b *ssa.BasicBlock, s int) bool { return !(b == eb && s == es) }, KeepNoReturn: true})
+	res := Reach([]Pt{from}, Opts{EdgeOK: func(b *ssa.BasicBlock, s int) bool { return !(b == eb && s == es) }})
 	return res.Reached[target]
 }
 
